@@ -11,6 +11,7 @@ import Grexv.Lemmas.Stages
 import Grexv.Lemmas.EndToEnd
 import Grexv.Lemmas.RepPipeline
 import Grexv.Lemmas.RepElim
+import Grexv.Lemmas.EndToEndR
 
 /-!
 # C16 — every pipeline stage preserves the language; minimisation is minimal (stage theorems)
@@ -282,6 +283,15 @@ theorem printing_preserves_language_anchors (i cap esc ns ne : Bool) (e : Expr) 
     ∃ P, Spec.parse (ciPrefix i ++ fmtRegExp (cfgAnch cap esc ns ne) e) = some (⟨i, false⟩, P) ∧
       (Spec.fullMatch i P s = true ↔ ∃ w, e.lang w ∧ atomsDen i (atomsOf w) s) :=
   printed_acceptsA i cap esc ns ne e hwf s hs
+
+/-- **S8/S9 with counted labels** (`-r`; any anchors, with or without capturing groups, `-e`, `-i`; not verbose): the text printed for an
+expression whose literals are printable, consistent counted graphemes (`Expr.WFS`: what S4, the widening merge and the elimination
+produce — `rep_final_wfs_na`) is accepted by the model of `Regex::new`, and the compiled pattern matches exactly the strings spelled by a
+label sequence of the expression's language, a label `{m,n}` contributing what its atoms denote `k` times, `m ≤ k ≤ n` -/
+theorem printing_preserves_language_repetitions (i cap esc ns ne : Bool) (e : Expr) (hwf : e.WFS) (s : Str) (hs : ∀ c ∈ s, Scalar c) :
+    ∃ P, Spec.parse (ciPrefix i ++ fmtRegExp (cfgAnch cap esc ns ne) e) = some (⟨i, false⟩, P) ∧
+      (Spec.fullMatch i P s = true ↔ ∃ ls, e.lang ls ∧ SpellsA i ls s) :=
+  printed_exactAR i cap esc ns ne e hwf s hs
 
 /-- the expression `Expression::from` returns for an acyclic automaton with plain labels is well-formed -/
 theorem elimination_result_wellformed (cap esc : Bool) (d : Dfa) (hd : LabelsBs d) (hdfs : DfsOK d d.dfs)
